@@ -204,3 +204,29 @@ CHECKS["C17"] = dict(
     technique="property-based testing (rapid) for packets + exhaustive enumeration of error patterns per packet",
     design_ref="DESIGN.md section 4, C17",
 )
+
+CHECKS["C16"] = dict(
+    pkg="c16", level="exploration",
+    props=[dict(name="TestPropChunking", quick=120000, thorough=16 * 1500000, shards_quick=8, shards_thorough=16, timeout_thorough=7200),
+           dict(name="TestPropDamage", quick=120000, thorough=16 * 1500000, shards_quick=8, shards_thorough=16, timeout_thorough=7200)],
+    fuzz=[dict(name="FuzzChunking", seconds=240)],
+    rule="1-6 frames (1 byte up to the largest payload whose encoding fits the read buffer of 64/300/600/1024 bytes with one "
+         "spare byte; zero-rich, zero-free or arbitrary content; lengths biased to 1-3, 253-255, 507-510) written with "
+         "CobsWrapper.Write; the resulting stream is cut into device reads: every byte, none/few (several frames per read), "
+         "or up to 12 cuts placed within -1..+2 of a delimiter or anywhere; a scripted io.ReadWriteCloser returns exactly "
+         "those chunks. Clean oracle: successive Reads return exactly the written frames, in order, each once, no error "
+         "before the end of input. Damage (one event: byte set to zero / to another non-zero value, byte deleted, zero or "
+         "non-zero byte inserted, at a drawn position, then cut as above): frames that end before the damage come first and "
+         "intact, every frame that begins after the first delimiter at or after the damage comes last and intact; anything "
+         "in between is allowed. Non-trivial: clean = >= 2 frames, a cut strictly inside a frame and a read holding the end "
+         "of one frame and the start of the next; damage = >= 2 frames and >= 1 frame required after the delimiter.",
+    assumptions=["zero-length frames are outside the domain (the serial layer never sends one)",
+                 "the caller's buffer has maxMessageLength bytes, as in client/serial.go",
+                 "one (damage: two) bytes of the buffer are left spare; the exact capacity boundary is not asserted"],
+    level_text="Generated frame sequences x segmentations x single damage events (rapid) against the written frames as oracle; a "
+               "native fuzz target over (frames, cut bitmap) in the thorough tier.",
+    level_note="Trusted: the scripted reader; CobsWrapper.Write as the definition of the stream (its own defect, a lost zero after "
+               "254 non-zero bytes, was found by this round trip and repaired).",
+    technique="property-based testing (rapid) + native go fuzzing; round trip through Write/Read under generated segmentations and faults",
+    design_ref="DESIGN.md section 4, C16",
+)
